@@ -23,7 +23,7 @@ STUBS = [
     "datetime.timedelta(seconds=n) on a symbolic int: OverflowError beyond +-10^9 days, else an opaque value",
 ]
 ASSUMPTIONS = ["server-controlled environ keys are well-formed and concrete"]
-OUTSIDE = ["non-ASCII host names (IDNA codec)", "form/files/data (multipart structure covered by C01/C10)", "parse_date (email.utils, datetime: C)", "Request.url/base_url (urlsplit/IDNA stdlib code)", "texts longer than the bound"]
+OUTSIDE = ["non-ASCII host names (IDNA codec)", "form/files/data (multipart structure covered by C01/C10)", "parse_date (email.utils, datetime: C)", "Request.url beyond get_current_url on (scheme http, solver host, fixed path/query)", "texts longer than the bound"]
 
 
 def _targets():
